@@ -41,6 +41,10 @@ class InjectedBase(BaseException):
     pass
 
 
+class HarnessSkip(Exception):
+    """An operation that cannot be attempted because an earlier one (rightly or wrongly) failed; never judged."""
+
+
 class HarnessError(Exception):
     """The harness itself misbehaved (never a verdict about tawazi)."""
 
@@ -316,6 +320,8 @@ class Run:
             self.executors[op["ex"]] = ex
             self.ex_inst[op["ex"]] = inst
             return ("graph", sorted(ex.graph.nodes))
+        if k in ("exrun", "exsetup") and op["ex"] not in self.executors:
+            raise HarnessSkip(f"executor {op['ex']} was not created")
         if k == "exrun":
             ex = self.executors[op["ex"]]
             self.op_inst[key] = self.ex_inst[op["ex"]]
@@ -479,6 +485,8 @@ class Run:
                     self.sim.ev("op_end", c, i, "ok")
                 except (SimAbort, SimLivelock):
                     raise
+                except HarnessSkip:
+                    self.sim.ev("op_end", c, i, "skipped")
                 except BaseException as e:  # noqa: BLE001
                     self.outcomes[(c, i)] = {"status": "exc", "exc": e, "type": type(e).__name__, "msg": str(e)}
                     self.sim.ev("op_end", c, i, "exc", type(e).__name__)
